@@ -114,3 +114,20 @@ Theorem C12_steady_rows_from_is_solution : forall (m : Mesh ROps) (bc : BCs ROps
   steady_row m D u beta s y c.
 Proof. exact is_solution_steady_row. Qed.
 Print Assumptions C12_rows_from_is_solution.
+
+(* the dt -> infinity limit for solutions of the assembled systems, hypotheses on the data only (Theory/ClosureThy.v) *)
+From PFV Require Import ClosureThy.
+Theorem C12_solution_step_to_steady : forall (m : Mesh ROps) (bc : BCs ROps) (D u : fvar ROps),
+  interior_cells ROps m <> nil ->
+  (forall c a, In c (interior_cells ROps m) -> In a (active_axes ROps m) -> (1 <= cidx a c <= mN ROps m a)%nat /\ signs_ok m D c a) ->
+  (forall c, In c (interior_cells ROps m) -> rsuml (fun a => divrow ROps m u a c) (active_axes ROps m) = 0%R) ->
+  bc_sign_ok m bc ->
+  forall (alpha beta s old x y : cvar ROps) (dt W A B : R),
+  (0 < dt)%R -> (0 <= W)%R -> (0 < B)%R ->
+  (forall c, In c (interior_cells ROps m) -> (0 < alpha c <= A)%R /\ (B <= beta c)%R) ->
+  is_solution ROps m bc (tlist D u alpha beta s old dt) x ->
+  is_solution ROps m bc (TDiff ROps (-1)%R D :: TUpw ROps 1%R u u :: TLin ROps 1%R beta :: TConst ROps 1%R s :: nil) y ->
+  (forall c, In c (interior_cells ROps m) -> (Rabs (old c - y c) <= W)%R) ->
+  forall c, In c (interior_cells ROps m) -> (Rabs (x c - y c) <= W * A / (A + dt * B))%R.
+Proof. exact solution_step_to_steady. Qed.
+Print Assumptions C12_solution_step_to_steady.
